@@ -127,6 +127,15 @@ def replay(rec):
             m2[rec['param']][rec['index']] = str(Fraction(m2[rec['param']][rec['index']]) + Fraction(rec['delta']))
             c2, _, _ = concrete_pit_grad(rec['spec'], rec.get('wseed', 0), m2, rec['metric'])
             return c2 < c - 1e-6 * max(1, abs(c)), f'cost {c} -> {c2} after increasing {rec["param"]}[{rec["index"]}] by {rec["delta"]}'
+    if rec.get('what_kind') == 'open':
+        spec, wseed, m_ = rec['spec'], rec.get('wseed', 0), rec['metric']
+        pit, model, shape = pitlib.make_pit(spec, wseed, cost=_pit_specs(spec['fam']))
+        orig, _ = pitlib.build_program(spec, wseed)
+        orig.eval()
+        xz = torch.zeros((1,) + tuple(shape))
+        wv = {'params': lambda: pitlib.count_params(orig), 'ops': lambda: pitlib.count_ops(orig, xz, True), 'ops_no_bias': lambda: pitlib.count_ops(orig, xz, False)}[m_]()
+        got = float(pit.get_cost(m_))
+        return abs(got - wv) > 1e-5 * max(1, abs(wv)), f'open-mask {m_} cost {got}, original model {wv}'
     if rec.get('what_kind') == 'odimo':
         ok, msg = _odimo_concrete()
         return not ok, msg
@@ -353,6 +362,18 @@ def _run_pit(res, p, selftest):
     # the cost depends on the architecture only: a specification (re)assigned while the masks have ANY value must give, once every mask is
     # fully open again, the cost of the original model
     open_cost = {m_: float(pit.get_cost(m_)) for m_ in specs}
+    # ... which is, for the size and operation counts, what an independent count on the user's own model gives (numel / forward hooks)
+    orig, _ = pitlib.build_program(spec, wseed)
+    orig.eval()
+    xz = torch.zeros((1,) + tuple(shape))
+    want = {'params': pitlib.count_params(orig), 'ops': pitlib.count_ops(orig, xz, True), 'ops_no_bias': pitlib.count_ops(orig, xz, False)}
+    for m_, wv in want.items():
+        if m_ in open_cost and not spec.get('exclude') and spec['fam'] not in ('K1', 'K3'):
+            ok = abs(open_cost[m_] - wv) <= 1e-5 * max(1, abs(wv)) and not selftest
+            res.oblige(ok)
+            if not ok:
+                res.violations.append({'key': f'{pitlib.prog_id(spec)}:{m_}|open!=original' + ('|selftest' if selftest else ''), 'spec': spec, 'metric': m_, 'what_kind': 'open', 'observable': 'open', 'wseed': wseed,
+                                       'what': f'{pitlib.prog_id(spec)}: with every mask fully open the {m_} cost is {open_cost[m_]} but the original model has {wv}'})
 
     def fn4(ex):
         pairs, sy = pitlib.fresh_masks(pit, nonneg=True, ex=ex)
@@ -540,7 +561,7 @@ def _run_mps(res, p, selftest):
             r, _ = ex.must(g)
             res.oblige(r == 'unsat')
             if r == 'sat':
-                res.violations.append({'key': f'MPS|{p["cost"]}|nonfinite', 'what': 'division by zero reachable in the cost'})
+                res.violations.append({'key': f'MPS|{p["cost"]}|nonfinite', 'what': f'division by zero reachable in the cost: {str(g)[:300]}'})
         r, _ = ex.must(st.e_lt(c, 0))
         res.oblige(r == 'unsat')
         if r == 'sat':
